@@ -174,6 +174,15 @@ class Ctx:
             self.proof_problems.append(('axioms', notallowed))
         if closed + len(axioms) < len(names):
             self.proof_problems.append(('assumption-reports', 'expected %d, saw %d' % (len(names), closed + len(axioms))))
+        if self.tier == 'thorough':
+            # independent re-check of the compiled files of this property and everything they depend on
+            mod = 'PV.' + prop_file[:-2].replace('/', '.')
+            p = subprocess.run(['timeout', '3000', 'coqchk', '-o', '-silent', '-Q', build.COQ, 'PV', mod], stdout=subprocess.PIPE, stderr=subprocess.STDOUT, text=True)
+            m = re.search(r'\* Axioms:\s*(.*?)\n\s*\n', p.stdout, flags=re.S)
+            ax = m.group(1).strip() if m else 'no summary'
+            self.extra['coqchk'] = {'module': mod, 'exit': p.returncode, 'axioms': ax}
+            if p.returncode != 0 or ax != '<none>':
+                self.proof_problems.append(('coqchk', (p.stdout or '')[-1500:]))
         if not self.proof_problems:
             self.discharged += len(names)
         self.extra.setdefault('print_assumptions', {})[prop_file] = {'closed': closed, 'axioms': sorted(named)}
